@@ -412,12 +412,12 @@ class Item:
         mo = re.search(r"\bin\b", self.m[s:ls[k - 1][2]])
         self.ghost(s + mo.end(), " %s: " % name)
 
-    def d_before(self, fn, anchor, payload):
-        a, b = self.find_in_fn(fn, anchor)
+    def d_before(self, fn, anchor, payload, occ=None):
+        a, b = self.find_in_fn(fn, anchor, occ)
         self.ghost(a, payload + "\n")
 
-    def d_after(self, fn, anchor, payload):
-        a, b = self.find_in_fn(fn, anchor)
+    def d_after(self, fn, anchor, payload, occ=None):
+        a, b = self.find_in_fn(fn, anchor, occ)
         self.ghost(b, "\n" + payload)
 
     def d_R4(self, old, new, rule="R4"):
@@ -1005,9 +1005,9 @@ def build_unit(unit_path, repo=REPO):
             elif name == "forit":
                 it.d_forit(args[0], int(args[1]), args[2])
             elif name == "before":
-                it.d_before(args[0], args[1], payload)
+                it.d_before(args[0], args[1], payload, int(args[2][1:]) if len(args) > 2 and args[2].startswith("#") else None)
             elif name == "after":
-                it.d_after(args[0], args[1], payload)
+                it.d_after(args[0], args[1], payload, int(args[2][1:]) if len(args) > 2 and args[2].startswith("#") else None)
             elif name == "R3":
                 it.pending_r3 = getattr(it, "pending_r3", []) + [(args[0], args[1], int(args[2]) if len(args) > 2 else 1, payload)]
                 it.d_R3(args[0], args[1], int(args[2]) if len(args) > 2 else 1)
